@@ -1,6 +1,6 @@
 import OxiVerif.Model.C02
 import OxiVerif.Lemmas.C02
-import OxiVerif.Props.C18
+import OxiVerif.Lemmas.C18
 /-!
 # C02 — documents written by the library read back with the same content
 
@@ -240,6 +240,19 @@ theorem C02_page_id_ne_content_id (i j : Nat) : pageId i ≠ contentId j := by
 
 example : pageId 3 = 10 ∧ contentId 3 = 11 := by decide
 
+/-- `C18_loop_document_order` (Props/C18), re-derived here from `Lemmas/C18` so that this module
+    does not depend on another property's Props file -/
+theorem loop_document_order (cls : Nat → C18.Cls) (f : C18.Forest) (fuel : Nat)
+    (hag : C18.Agrees cls f) (hnd : f.ids.Nodup) (hmax : f.leaves.length ≤ C18.MAX_PAGES)
+    (hfuel : f.size ≤ fuel) : C18.loop cls fuel f.roots [] [] = some f.leaves := by
+  have hf := C18.loop_forest cls f 0 [] [] [] f.leaves hag hnd (by simp) (by simpa using hmax)
+    (by simp [C18.loop])
+  simp only [List.append_nil, Nat.zero_add] at hf
+  have := C18.loop_fuel_mono cls _ _ _ _ _ hf (fuel - f.size)
+  have e : f.size + (fuel - f.size) = fuel := by omega
+  rw [e] at this
+  exact this
+
 def leafChain : List Nat → C18.Forest
   | [] => .nil
   | k :: r => .leaf k (leafChain r)
@@ -268,7 +281,7 @@ theorem C02_flatten_written_tree (cls : Nat → C18.Cls) (n fuel : Nat)
     (hleaf : ∀ i < n, cls (pageId i) = .leaf) (hmax : n ≤ C18.MAX_PAGES) (hfuel : n ≤ fuel) :
     C18.loop cls fuel ((List.range n).map pageId) [] [] = some ((List.range n).map pageId) := by
   have f := leafChain_facts ((List.range n).map pageId)
-  have := C18.C18_loop_document_order cls (leafChain ((List.range n).map pageId)) fuel
+  have := loop_document_order cls (leafChain ((List.range n).map pageId)) fuel
     (leafChain_agrees cls _ (by
       intro k hk
       obtain ⟨i, hi, rfl⟩ := List.mem_map.mp hk
